@@ -245,6 +245,25 @@ def gen_eq_random(ctx, n):
         if rng.random() < 0.5:
             ea, ka, eb, kb = eb, kb, ea, ka
         out.append(eq_case(ctx, ea, ka, eb, kb, lab))
+    # a plain Cal against a ONE-MEMBER combined calendar, BOTH WAYS ROUND: same behaviour under another representation (holiday
+    # on an excluded weekday / outside 1970-2200 / listed in another order / member repeated) must compare equal, one date
+    # inside must not
+    for _ in range(max(8, n // 3)):
+        for _try in range(50):
+            cals, settle, lo, hi = gen_base(rng)
+            if len(cals) == 1:
+                break
+        cals, settle = cals[:1], rng.choice([None, None, []])
+        for _try in range(20):
+            c2, s2, lab = variant(rng, cals, settle, lo, hi)
+            if lab in ("same-reordered", "only-outside", "holiday-on-masked-day", "one-date-inside", "first-day", "last-day",
+                       "duplicate-member", "same", "settle-none-vs-empty"):
+                break
+        else:
+            c2, s2, lab = copy_cals(cals), settle, "same"
+        ea, eb = enc_cal_kind(0, *cals[0]), enc_union(1, c2, s2)
+        out.append(eq_case(ctx, ea, 0, eb, 1, "Cal/one-member union: " + lab))
+        out.append(eq_case(ctx, eb, 1, ea, 0, "one-member union/Cal: " + lab))
     return out
 
 
